@@ -12,6 +12,7 @@ TABLE = {
     'C01': ('harness.c01', lambda m, tier, only: m.main('C01', tier, only)),
     'C04': ('harness.c01', lambda m, tier, only: m.main('C04', tier, only)),
     'C05': ('harness.c01', lambda m, tier, only: m.main('C05', tier, only)),
+    'C08': ('harness.c01', lambda m, tier, only: m.main('C08', tier, only)),
     'C09': ('harness.c01', lambda m, tier, only: m.main('C09', tier, only)),
     'C11': ('harness.c01', lambda m, tier, only: m.main('C11', tier, only)),
     'C20': ('harness.c01', lambda m, tier, only: m.main('C20', tier, only)),
